@@ -540,17 +540,18 @@ theorem meat_eaten (h : Feasible (buildLP i kind) x) (hon : i.addMeat = true)
   have H := holds_of_mem_meat h hon hm hr
   simpa only [holds_row_eq, eval_mv, eval_sub, eval_gross, meatUse] using H
 
-/-- `Meat_Eaten_Maximum_m` -/
-theorem meat_cap (h : Feasible (buildLP i kind) x) (hon : i.addMeat = true)
+/-- `Meat_Eaten_Maximum_m` (after the repair of D10): what has left the meat store by the end of
+    month `m` is at most the running slaughter total -/
+theorem meat_cap_row (h : Feasible (buildLP i kind) x) (hon : i.addMeat = true)
     (hs : i.storeBetweenYears = true) (hm : m < i.nmonths) :
-    meatUse i x m ≤ at' i.maxCulled m := by
-  have hr : row "Meat_Eaten_Maximum" m (gross (mv .meatEaten m) i.wMeat) .le
+    i.meatSummed - x (.mv .meatEnd m) ≤ at' i.maxCulled m := by
+  have hr : row "Meat_Eaten_Maximum" m (Aff.k i.meatSummed - mv .meatEnd m) .le
       (Aff.k (at' i.maxCulled m)) ∈ meatRows i m := by
     unfold meatRows
     simp only [hs, Bool.not_true, Bool.false_eq_true, if_false]
     lp_mem
   have H := holds_of_mem_meat h hon hm hr
-  simpa only [holds_row_le, eval_mv, eval_gross, eval_k, meatUse] using H
+  simpa only [holds_row_le, eval_mv, eval_sub, eval_k] using H
 
 /-! ### single-cell protein, cellulosic sugar -/
 
@@ -783,6 +784,41 @@ theorem meat_total (h : Feasible (buildLP i kind) x) (hon : i.addMeat = true)
   have h2 := h.2 (.mv .meatEnd m)
   linarith
 
+/-- with storage: meat eaten so far never exceeds the running slaughter total `maxCulled m` -/
+theorem meat_cumulative_cap (h : Feasible (buildLP i kind) x) (hon : i.addMeat = true)
+    (hs : i.storeBetweenYears = true) (hm : m < i.nmonths) :
+    cum (meatUse i x) m ≤ at' i.maxCulled m := by
+  have h1 := meat_end_eq h hon hs hm
+  have h2 := meat_cap_row h hon hs hm
+  linarith
+
+/-- … so meat is never eaten before it is slaughtered, when `maxCulled` is the running total of
+    the slaughter series -/
+theorem meat_never_eaten_before_slaughter (i : Inp K) (kind : Kind) (x : Var → K)
+    (h : Feasible (buildLP i kind) x) (hon : i.addMeat = true) (hs : i.storeBetweenYears = true)
+    (hc : ∀ m, m < i.nmonths → at' i.maxCulled m = cum (at' i.slaughtered) m)
+    (m : Nat) (hm : m < i.nmonths) : cum (meatUse i x) m ≤ cum (at' i.slaughtered) m := by
+  rw [← hc m hm]; exact meat_cumulative_cap h hon hs hm
+
+/-- grossed-up meat is non-negative for a waste percentage of at most 100 -/
+theorem meatUse_nonneg' (hx : ∀ v, 0 ≤ x v) (hw : i.wMeat ≤ 100) (k : Nat) : 0 ≤ meatUse i x k := by
+  unfold meatUse
+  rw [grossUp_eq]
+  refine div_nonneg (hx _) ?_
+  have : i.wMeat / 100 ≤ 1 := by rw [div_le_one (by norm_num)]; exact hw
+  linarith
+
+/-- the former per-month cap follows from the cumulative one (earlier months eat ≥ 0) -/
+theorem meat_cap (h : Feasible (buildLP i kind) x) (hon : i.addMeat = true)
+    (hs : i.storeBetweenYears = true) (hw : i.wMeat ≤ 100) (hm : m < i.nmonths) :
+    meatUse i x m ≤ at' i.maxCulled m := by
+  refine le_trans ?_ (meat_cumulative_cap h hon hs hm)
+  cases m with
+  | zero => exact le_rfl
+  | succ m =>
+    rw [cum_succ]
+    exact le_add_of_nonneg_left (cum_nonneg _ m (fun k _ => meatUse_nonneg' h.2 hw k))
+
 theorem meat_cumulative_without_storage (i : Inp K) (kind : Kind) (x : Var → K)
     (h : Feasible (buildLP i kind) x) (hm : i.addMeat = true) (hs : i.storeBetweenYears = false)
     (m : Nat) (hlt : m < i.nmonths) :
@@ -808,7 +844,8 @@ theorem exEq_le (c : String) (m : Nat) {a b : K} (hab : a = b) :
 theorem ex_le (c : String) (m : Nat) {a b : K} (hab : a ≤ b) : (ex c m (a - b)).value ≤ 0 :=
   sub_nonpos.mpr hab
 
-theorem physMonth_le (i : Inp K) (kind : Kind) (x : Var → K) (h : Feasible (buildLP i kind) x)
+theorem physMonth_le (i : Inp K) (kind : Kind) (x : Var → K) (hwM : i.wMeat ≤ 100)
+    (h : Feasible (buildLP i kind) x)
     (m : Nat) (hm : m < i.nmonths) : ∀ e ∈ physMonth i kind x m, e.value ≤ 0 := by
   intro e he
   unfold physMonth at he
@@ -834,9 +871,10 @@ theorem physMonth_le (i : Inp K) (kind : Kind) (x : Var → K) (h : Feasible (bu
       exact ex_le _ _ (meat_monthly h hon hs' hm)
     · have hs' : i.storeBetweenYears = true := by simpa using hs
       simp only [List.mem_cons, List.not_mem_nil, or_false] at he
-      rcases he with rfl | rfl
+      rcases he with rfl | rfl | rfl
       · exact ex_le _ _ (meat_total h hon hs' hm)
-      · exact ex_le _ _ (meat_cap h hon hs' hm)
+      · exact ex_le _ _ (meat_cumulative_cap h hon hs' hm)
+      · exact ex_le _ _ (meat_cap h hon hs' hwM hm)
     · exact absurd he List.not_mem_nil
   · -- SCP
     split_ifs at he with hon
@@ -916,12 +954,13 @@ theorem physFinal_le (i : Inp K) (kind : Kind) (x : Var → K) (hN : 2 ≤ i.nmo
       · exact absurd he List.not_mem_nil
 
 theorem feasible_is_physical (i : Inp K) (kind : Kind) (x : Var → K) (hN : 2 ≤ i.nmonths)
+    (hwM : i.wMeat ≤ 100)
     (h : Feasible (buildLP i kind) x) : ∀ e ∈ physCore i kind x, e.value ≤ 0 := by
   intro e he
   unfold physCore at he
   rcases List.mem_append.mp he with he | he
   · obtain ⟨m, hm, hem⟩ := List.mem_flatMap.mp he
-    exact physMonth_le i kind x h m (List.mem_range.mp hm) e hem
+    exact physMonth_le i kind x hwM h m (List.mem_range.mp hm) e hem
   · exact physFinal_le i kind x hN h e he
 
 end Phys
@@ -967,15 +1006,51 @@ def emptyInst : Inp ℚ :=
     limScpB := 0, limCsH := 0, limCsF := 0, limCsB := 0, minSeaweed := [], minCrops := [],
     minStored := [], minMeat := [], minScp := [], minCs := [] }
 
-/-! ### D10: meat eaten before it is slaughtered -/
+/-! ### D10 (repaired): meat eaten before it is slaughtered
 
-/-- three months, meat only, storage between years: 1, 1, 8 slaughtered; the monthly cap is the
+The rows as they were before the repair of `add_meat_to_model` capped each month's meat by the
+running slaughter total; the point below satisfied them while eating 3 by month 1 of 2
+slaughtered.  Today's cumulative row rejects it. -/
+
+theorem not_holds_of_holdsB (x : Var → ℚ) (r : Row ℚ) (h : holdsB x r = false) : ¬ r.holds x := by
+  unfold holdsB at h
+  unfold Row.holds
+  split at h <;> simp_all
+
+/-- the meat rows before the repair: per-month cap `Meat_Eaten_Maximum` -/
+def meatRowsBefore (i : Inp ℚ) (m : Nat) : List (Row ℚ) :=
+  if !i.storeBetweenYears then
+    [ row "Meat_Eaten" m (gross (mv .meatEaten m) i.wMeat) .le (Aff.k (at' i.slaughtered m)) ]
+  else
+    [ (if m = 0 then row "Meat_Start" m (mv .meatStart 0) .eq (Aff.k i.meatSummed)
+       else row "Meat_Start" m (mv .meatStart m) .eq (mv .meatEnd (m - 1))),
+      row "Meat_Eaten" m (mv .meatEnd m) .eq (mv .meatStart m - gross (mv .meatEaten m) i.wMeat),
+      row "Meat_Eaten_Maximum" m (gross (mv .meatEaten m) i.wMeat) .le (Aff.k (at' i.maxCulled m)) ]
+
+/-- `buildLP` with the meat rows as they were before the repair (everything else identical) -/
+def buildLPBefore (i : Inp ℚ) (kind : Kind) : List (Row ℚ) :=
+  resourceRows i kind i.addSeaweed (seaweedRows i)
+      (fun m => pinnedRows i "Seaweed" (Aff.mulr (mv .swHumans m) i.seaweedKcals) (at' i.minSeaweed m) m) ++
+  resourceRows i kind i.addOutdoor (cropRows i kind)
+      (fun m => pinnedRows i "Outdoor_crops" (mv .cropHumans m) (at' i.minCrops m) m) ++
+  resourceRows i kind i.addStored (storedRows i kind)
+      (fun m => pinnedRows i "Stored_food" (mv .sfHumans m) (at' i.minStored m) m) ++
+  resourceRows i kind i.addMeat (meatRowsBefore i)
+      (fun m => pinnedRows i "Meat" (mv .meatEaten m) (at' i.minMeat m) m) ++
+  resourceRows i kind i.addScp (scpRows i)
+      (fun m => pinnedRows i "Methane_SCP" (mv .scpHumans m) (at' i.minScp m) m) ++
+  resourceRows i kind i.addCs (csRows i)
+      (fun m => pinnedRows i "Cellulosic_Sugar" (mv .csHumans m) (at' i.minCs m) m) ++
+  (List.range i.nmonths).flatMap (generalRows i kind) ++
+  objectiveRows i kind
+
+/-- three months, meat only, storage between years: 1, 1, 8 slaughtered; the cap is the
     running total 1, 2, 10 -/
 def meatInst : Inp ℚ :=
   { emptyInst with nmonths := 3, addMeat := true, storeBetweenYears := true, meatSummed := 10,
                    slaughtered := [1, 1, 8], maxCulled := [1, 2, 10] }
 
-/-- eats 1, 2, 0: each month within its cap, but 3 eaten by month 1 of 2 slaughtered -/
+/-- eats 1, 2, 0: each month within the old per-month cap, but 3 eaten by month 1 of 2 slaughtered -/
 def meatX : Var → ℚ
   | .mv .meatEaten m => [1, 2, 0].getD m 0
   | .mv .meatStart m => [10, 9, 7].getD m 0
@@ -983,7 +1058,8 @@ def meatX : Var → ℚ
   | .mv .consumedKcals m => [1, 2, 0].getD m 0
   | _ => 0
 
-theorem meatX_rows : (buildLP meatInst .toHumans).all (holdsB meatX) = true := by decide +kernel
+theorem meatX_rows_before : (buildLPBefore meatInst .toHumans).all (holdsB meatX) = true := by
+  decide +kernel
 
 theorem meatX_nonneg : ∀ v, 0 ≤ meatX v := by
   intro v
@@ -995,18 +1071,31 @@ theorem meatX_nonneg : ∀ v, 0 ≤ meatX v := by
   | objective => exact le_rfl
   | objectiveBest => exact le_rfl
 
-theorem meat_gap_counterexample :
-    ∃ (i : Inp ℚ) (x : Var → ℚ), 2 ≤ i.nmonths ∧ Feasible (buildLP i .toHumans) x ∧
+/-- before the repair: a feasible point of the LP (honest data: non-negative slaughter, `maxCulled`
+    its running total, `meatSummed` its total) that eats meat before it is slaughtered; the repaired
+    `Meat_Eaten_Maximum_1` of today's `meatRows` is what excludes it -/
+theorem meat_gap_counterexample_before_fix :
+    ∃ (i : Inp ℚ) (x : Var → ℚ), 2 ≤ i.nmonths ∧ Feasible (buildLPBefore i .toHumans) x ∧
       (∀ s ∈ i.slaughtered, 0 ≤ s) ∧
       (∀ m, m < i.nmonths → at' i.maxCulled m = cum (at' i.slaughtered) m) ∧
       i.meatSummed = cum (at' i.slaughtered) (i.nmonths - 1) ∧
-      ∃ e ∈ physGap i .toHumans x, 0 < e.value := by
-  refine ⟨meatInst, meatX, by decide, ⟨rows_hold_of_all _ _ meatX_rows, meatX_nonneg⟩,
-    by decide +kernel, by decide +kernel, by decide +kernel, ?_⟩
-  have h : (physGap meatInst .toHumans meatX).any (fun e => decide (0 < e.value)) = true := by
-    decide +kernel
-  obtain ⟨e, he, hpos⟩ := List.any_eq_true.mp h
-  exact ⟨e, he, of_decide_eq_true hpos⟩
+      (∃ e ∈ meatVsSlaughter i x, 0 < e.value) ∧
+      (∃ m, m < i.nmonths ∧ ∃ r ∈ meatRows i m, ¬ r.holds x) ∧
+      ¬ Feasible (buildLP i .toHumans) x := by
+  have hrow : ∃ m, m < meatInst.nmonths ∧ ∃ r ∈ meatRows meatInst m, ¬ r.holds meatX := by
+    refine ⟨1, by decide, ?_⟩
+    have h : (meatRows meatInst 1).any (fun r => !holdsB meatX r) = true := by decide +kernel
+    obtain ⟨r, hr, hb⟩ := List.any_eq_true.mp h
+    exact ⟨r, hr, not_holds_of_holdsB _ _ (by simpa using hb)⟩
+  refine ⟨meatInst, meatX, by decide, ⟨rows_hold_of_all _ _ meatX_rows_before, meatX_nonneg⟩,
+    by decide +kernel, by decide +kernel, by decide +kernel, ?_, hrow, ?_⟩
+  · have h : (meatVsSlaughter meatInst meatX).any (fun e => decide (0 < e.value)) = true := by
+      decide +kernel
+    obtain ⟨e, he, hpos⟩ := List.any_eq_true.mp h
+    exact ⟨e, he, of_decide_eq_true hpos⟩
+  · intro hf
+    obtain ⟨m, hm, r, hr, hn⟩ := hrow
+    exact hn (hf.1 r (mem_buildLP_meat rfl hm hr))
 
 /-! ### D14: stored food left uneaten where it cannot be carried over -/
 
@@ -1042,7 +1131,7 @@ theorem stored_gap_counterexample :
   refine ⟨storedInst, storedX, by decide, ⟨rows_hold_of_all _ _ storedX_rows, storedX_nonneg⟩,
     ex "stored-full-use-no-storage" 1
       (storedInst.storedInitial - cum (storedUse storedInst storedX) 1), ?_, ?_, rfl⟩
-  · exact List.mem_append_right _ (List.mem_singleton_self _)
+  · exact List.mem_singleton_self _
   · show (0 : ℚ) < storedInst.storedInitial - cum (storedUse storedInst storedX) 1
     decide +kernel
 
@@ -1191,7 +1280,7 @@ def MeatSpec (i : Inp K) (x : Var → K) (m : Nat) : Prop :=
     (if m = 0 then x (.mv .meatStart 0) = i.meatSummed
      else x (.mv .meatStart m) = x (.mv .meatEnd (m - 1))) ∧
     x (.mv .meatEnd m) = x (.mv .meatStart m) - meatUse i x m ∧
-    meatUse i x m ≤ at' i.maxCulled m
+    i.meatSummed - x (.mv .meatEnd m) ≤ at' i.maxCulled m
   else meatUse i x m ≤ at' i.slaughtered m
 
 theorem meatRows_iff : (∀ r ∈ meatRows i m, r.holds x) ↔ MeatSpec i x m := by
